@@ -87,4 +87,14 @@ PROPS = {
         'crosscheck_functions': [],
         'lean': 'lemmas/Escape.lean',
     },
+    'C17': {
+        'level': 'proof',
+        'functions': [
+            'pyx12.path.X12Path.__init__',
+            'pyx12.segment.Segment.get_value',
+            'pyx12.segment.Segment.set',
+        ],
+        'crosscheck_functions': [],
+        'ground': ['c17'],
+    },
 }
